@@ -233,6 +233,8 @@ def fragments(tier):
     for size in (1, 2, 3) if tier == "quick" else (1, 2, 3, 4):
         for e in g.exprs(size, False, ["a", "n"]):
             frs.append(render(e))
+    # strings that only exist inside Lua: nowiki / comments are handled there exactly as in page text
+    frs += ["<nowiki>{{a|x}}</nowiki>", "a<nowiki>[[b]]</nowiki>{{a|c}}", "x<!-- c -->y", "<nowiki/>{{a|x}}", "{{a|<nowiki>|</nowiki>}}"]
     frs = [f for f in dict.fromkeys(frs) if f]
     ets = []
     vals = ["x", " x ", "x y", ""]
